@@ -172,11 +172,12 @@ def make_harness(n_calls: int, first_kind: str, later_kinds: list[str] | None = 
                 finally:
                     _Hook.callback = None
             else:
-                how = e.pick(["intact", "unknown-type", "missing-id"], f"corruption{step}")
-                where = e.choice(3, f"where{step}") if how != "intact" else 0
+                how = e.pick(["intact", "unknown-type", "missing-id", "top-level-list", "top-level-scalar"], f"corruption{step}")
+                where = e.choice(3, f"where{step}") if how in ("unknown-type", "missing-id") else 0
                 data = clean[kind]
                 if how != "intact":
-                    as_dict = _corrupt(baseline, how, where)
+                    # a document whose top level is no mapping at all is malformed input as well
+                    as_dict = [baseline] if how == "top-level-list" else (7 if how == "top-level-scalar" else _corrupt(baseline, how, where))
                     data = {"as_obj": as_dict, "from_json": orjson.dumps(as_dict), "from_msgpck": msgpack.packb(as_dict, use_bin_type=True), "from_yaml": yaml.dump(as_dict)}[kind]
                 try:
                     cls = type(root)
@@ -268,7 +269,7 @@ def spec(tier: str, seed: int) -> Spec:
     return Spec(
         families=fams,
         functions=FUNCTIONS,
-        bounds={"calls_per_sequence": "2 option-carrying calls (quick: the second is always as_dict with options), each followed by a default as_dict()", "trees": len(TREES), "options": "SKIP_CLASS, SORT_KEYS, SOURCE_OPTIMIZED_SERIALIZATION lazily; dialect none/explorer/test", "fault_schedule": "failure at any nested hooked object (<= 3 per tree)", "corruptions": ["unknown type tag", "missing id"]},
+        bounds={"calls_per_sequence": "2 option-carrying calls (quick: the second is always as_dict with options), each followed by a default as_dict()", "trees": len(TREES), "options": "SKIP_CLASS, SORT_KEYS, SOURCE_OPTIMIZED_SERIALIZATION lazily; dialect none/explorer/test", "fault_schedule": "failure at any nested hooked object (<= 3 per tree)", "corruptions": ["unknown type tag", "missing id", "top-level list", "top-level scalar"]},
         rule="a case = one path = (tree, call sequence, value of every option bit and fault bit the real code consulted, dialect, corruption); distinct by that tuple; non-trivial = at least one option or fault consulted",
         variables="lazy booleans (options, fault schedule); selectors (call kinds, dialect, corruption, tree)",
         assumptions=["key order is not checked for YAML output (the YAML dumper sorts keys itself)", "a custom mashumaro dialect is not varied (the three front-ends already pass their own)"],
